@@ -219,3 +219,39 @@ func c03probeRange(tree *MutableTree, model []c03kv) {
 	})
 	c03seqEqual(seen, want, "iterate-range")
 }
+
+//verif:config VerifC03balance maxpaths=200000
+
+// VerifC03balance: the rebalancing kernel as an inductive lemma. A node whose two children are
+// ARBITRARY valid AVL subtrees whose heights differ by at most two (the transient state after an
+// insertion or a removal below it; the taller child has height <= 3, so all four rotation cases
+// with every balance of the heavy child occur) is handed to balance(): the result is a valid AVL
+// tree — balanced, correct heights, sizes and inner keys — with exactly the same leaves in order.
+func VerifC03balance() {
+	hbig := 1 + v.Choice(3) // 1..3
+	diff := v.Choice(3)     // 0, 1 or 2
+	hsmall := hbig - diff
+	if hsmall < 0 {
+		return
+	}
+	leftHeavy := v.Choice(2) == 1
+	var leaves []c03kv
+	var l, r *Node
+	first := 0
+	if leftHeavy {
+		l = c03gen(hbig, &leaves, 1)
+		first = len(leaves)
+		r = c03gen(hsmall, &leaves, 1)
+	} else {
+		l = c03gen(hsmall, &leaves, 1)
+		first = len(leaves)
+		r = c03gen(hbig, &leaves, 1)
+	}
+	node := &Node{key: leaves[first].k, height: int8(hbig + 1), size: l.size + r.size, leftNode: l, rightNode: r, version: 2}
+	tree := &MutableTree{ImmutableTree: &ImmutableTree{root: node, version: 1}, orphans: map[string]int64{}, versions: map[int64]bool{}}
+	var orphans []*Node
+	res := tree.balance(node, &orphans)
+	var got []c03kv
+	c03valid(res, &got, "balance")
+	c03seqEqual(got, leaves, "balance-keeps-the-leaves")
+}
